@@ -290,7 +290,7 @@ def c14_traces(run, tier, seed):
             # two identical --remove-item options count as one (spec: excluded)
             seen, ops2 = set(), []
             for o in ops:
-                key = (o["kind"], o["s"], o["k"], o["ws"])
+                key = (o["kind"], o["s"], o["k"])
                 if o["kind"] == "rem" and key in seen:
                     continue
                 seen.add(key)
@@ -415,7 +415,7 @@ def main_c14(tier, seed):
                 cases = [c for c in tlc.read_ndjson(os.path.join(res.outdir, "cases.ndjson")) if not c["readRejects"]]
         finally:
             tlc.cleanup(res)
-        for c2, inv in (("IniDoc_code_edits", "EditsAreHandEdits"),):
+        for c2, inv in (("IniDoc_code_edits", "EditsAreHandEdits"),) + ((("IniDoc_rawmerge", "EditsAreHandEdits"),) if tier == "thorough" else ()):
             r2 = tlc.run("IniDoc", c2 + ".cfg", timeout=600)
             run.notes["unrepaired_model_violates"] = r2.violated
             if r2.violated != inv:
